@@ -209,9 +209,15 @@ pub fn directive_file(rng: &mut Rng, o: &DirGenOpts) -> DirFile {
     b.same(&format!("#!/usr/bin/env deno{}", nl));
   }
   // leading comments
+  // every sixth file mentions the line word nowhere: only file directives and plain comments in the header, no
+  // directive comments in the body
+  let plain = rng.chance(1, 6);
+  if plain {
+    feats.push("no-line-word-anywhere");
+  }
   let lead = rng.below(4);
   for _ in 0..lead {
-    match rng.below(7) {
+    match if plain { [0, 1, 5][rng.below(3)] } else { rng.below(7) } {
       0 if rng.chance(1, 2) => {
         // a comment whose first word merely starts with the file word: not a directive, and nothing after it changes
         feats.push("near-miss-file-word");
@@ -299,7 +305,7 @@ pub fn directive_file(rng: &mut Rng, o: &DirGenOpts) -> DirFile {
   }
   let stmts = rng.range(0, 11);
   for _ in 0..stmts {
-    let r = rng.below(10);
+    let r = if plain { 9 } else { rng.below(10) };
     if r < 4 {
       feats.push("line-dir");
       let indent: String = (0..rng.below(3)).map(|_| ' ').collect();
